@@ -42,6 +42,10 @@ struct Roles {
     fund_owner: String,
     pool_owner: String,
     feed_owner: Vec<String>,
+    /// the extra vAMM: its owner, and whoever was later given its margin-engine / insurance-fund role (nobody at first)
+    orphan_owner: String,
+    orphan_engine: Option<String>,
+    orphan_fund: Option<String>,
 }
 
 #[derive(Clone, Debug)]
@@ -194,7 +198,7 @@ fn entries(w: &World, roles: &Roles) -> Vec<Entry> {
     // a vAMM that was opened before any margin engine / insurance fund was configured: nobody holds those roles
     if let Some(orphan) = &w.orphan_vamm {
         let st: vamm::StateResponse = w.query(orphan, &vamm::QueryMsg::State {}).expect("orphan state");
-        let nobody: Vec<String> = vec![];
+        let nobody: Vec<String> = roles.orphan_engine.iter().cloned().collect();
         es.push(Entry {
             name: "orphan.SwapInput",
             target: Target::Orphan,
@@ -223,7 +227,33 @@ fn entries(w: &World, roles: &Roles) -> Vec<Entry> {
             name: "orphan.SetOpen",
             target: Target::Orphan,
             msg: jv(&vamm::ExecuteMsg::SetOpen { open: !st.open }),
-            allowed: vec!["owner".into()],
+            allowed: std::iter::once(roles.orphan_owner.clone()).chain(roles.orphan_fund.iter().cloned()).collect(),
+            must_succeed_for_holder: true,
+            at_time: None,
+        });
+        es.push(Entry {
+            name: "orphan.UpdateOwner",
+            target: Target::Orphan,
+            msg: jv(&vamm::ExecuteMsg::UpdateOwner { owner: "thirdadmin".into() }),
+            allowed: vec![roles.orphan_owner.clone()],
+            must_succeed_for_holder: true,
+            at_time: None,
+        });
+        es.push(Entry {
+            name: "orphan.UpdateConfig",
+            target: Target::Orphan,
+            msg: jv(&vamm::ExecuteMsg::UpdateConfig {
+                base_asset_holding_cap: None,
+                open_interest_notional_cap: None,
+                toll_ratio: None,
+                spread_ratio: None,
+                fluctuation_limit_ratio: None,
+                margin_engine: Some("thirdadmin".into()),
+                insurance_fund: Some("thirdadmin".into()),
+                pricefeed: None,
+                spot_price_twap_interval: None,
+            }),
+            allowed: vec![roles.orphan_owner.clone()],
             must_succeed_for_holder: true,
             at_time: None,
         });
@@ -397,7 +427,7 @@ fn senders(w: &World, roles: &Roles) -> Vec<String> {
         "newadmin".into(),
         "secondadmin".into(),
     ];
-    for r in roles.vamm_owner.iter().chain(roles.feed_owner.iter()).chain([&roles.engine_owner, &roles.pauser, &roles.fund_owner, &roles.pool_owner]) {
+    for r in roles.vamm_owner.iter().chain(roles.feed_owner.iter()).chain([&roles.engine_owner, &roles.pauser, &roles.fund_owner, &roles.pool_owner, &roles.orphan_owner]).chain(roles.orphan_engine.iter()).chain(roles.orphan_fund.iter()) {
         if !s.contains(r) {
             s.push(r.clone());
         }
@@ -497,7 +527,7 @@ impl Property for C09 {
         (
             world_cfg_strategy(&p),
             proptest::collection::vec(op_strategy(&w), 0..=10),
-            proptest::collection::vec((0u8..6, 0u8..2, any::<u16>()).prop_map(|(role, v, to)| Transfer { role, v, to }), 0..=nt),
+            proptest::collection::vec((0u8..9, 0u8..2, any::<u16>()).prop_map(|(role, v, to)| Transfer { role, v, to }), 0..=nt),
         )
             .prop_map(|(mut cfg, prelude, transfers)| {
                 cfg.orphan = true;
@@ -515,7 +545,7 @@ impl Property for C09 {
         Some("matrix_entries")
     }
     fn rule(&self) -> String {
-        "deployments of all five contracts (1-2 vAMMs, each with the repository's own price feed, cw20 or native collateral) brought into a generated state by up to 10 engine / admin operations (positions, paused, closed, unregistered, whitelisted); then the complete matrix of 26 privileged message variants (plus swaps / funding settlement / SetOpen on an extra vAMM that was opened before any margin engine or insurance fund was configured, where nobody holds those roles) (canonical instances whose arguments are valid in that state) x 9+ senders (deployment owner, pauser, engine contract, insurance-fund contract, a vAMM contract, a trader, a stranger, two fresh admin accounts, every current role holder) is executed, each entry from the same snapshot: a sender that does not hold the message's role must get Err with the raw storage dump unchanged; the role holder must succeed whenever nothing but authorisation can fail. Then up to 4 (thorough: 8) generated role transfers (vAMM owner, engine owner, pauser, fund owner, fee-pool owner, feed owner; chains and transfers back) are applied, the harness tracking the holders from the successful transfer messages, and after each the matrix of the affected contract is enumerated again. evaluations = matrix entries. Non-trivial: a case with >= 1 successful role transfer and >= 1 open position. Distinct by digest of the case.".into()
+        "deployments of all five contracts (1-2 vAMMs, each with the repository's own price feed, cw20 or native collateral) brought into a generated state by up to 10 engine / admin operations (positions, paused, closed, unregistered, whitelisted); then the complete matrix of 26 privileged message variants (plus swaps / funding settlement / SetOpen on an extra vAMM that was opened before any margin engine or insurance fund was configured, where nobody holds those roles) (canonical instances whose arguments are valid in that state) x 9+ senders (deployment owner, pauser, engine contract, insurance-fund contract, a vAMM contract, a trader, a stranger, two fresh admin accounts, every current role holder) is executed, each entry from the same snapshot: a sender that does not hold the message's role must get Err with the raw storage dump unchanged; the role holder must succeed whenever nothing but authorisation can fail. Then up to 4 (thorough: 8) generated role transfers (vAMM owner, engine owner, pauser, fund owner, fee-pool owner, feed owner, and on the extra vAMM its owner and the first assignment / later re-assignment of its margin-engine and insurance-fund roles; chains and transfers back) are applied, the harness tracking the holders from the successful transfer messages, and after each the matrix of the affected contract is enumerated again. evaluations = matrix entries. Non-trivial: a case with >= 1 successful role transfer and >= 1 open position. Distinct by digest of the case.".into()
     }
     fn assumptions(&self) -> Vec<String> {
         vec![
@@ -550,6 +580,9 @@ impl Property for C09 {
             fund_owner: "owner".into(),
             pool_owner: "owner".into(),
             feed_owner: vec!["owner".into(); nv],
+            orphan_owner: "owner".into(),
+            orphan_engine: None,
+            orphan_fund: None,
         };
         let positions = observe(&it.w).pos.iter().flatten().filter(|p| p.is_some()).count();
         let mut transfers_ok = 0u64;
@@ -560,10 +593,11 @@ impl Property for C09 {
                 return out;
             }
         }
+        let orphan = it.w.orphan_vamm.clone().expect("orphan vamm");
         for (i, t) in c.transfers.iter().enumerate() {
             let to = CANDIDATES[idx(t.to, CANDIDATES.len())].to_string();
             let v = (t.v as usize) % nv;
-            let (holder, target, msg, prefix): (String, Addr, serde_json::Value, &str) = match t.role % 6 {
+            let (holder, target, msg, prefix): (String, Addr, serde_json::Value, &str) = match t.role % 9 {
                 0 => (roles.vamm_owner[v].clone(), it.w.vamms[v].clone(), jv(&vamm::ExecuteMsg::UpdateOwner { owner: to.clone() }), "vamm."),
                 1 => (
                     roles.engine_owner.clone(),
@@ -582,10 +616,27 @@ impl Property for C09 {
                 2 => (roles.pauser.clone(), it.w.engine.clone(), jv(&eng::ExecuteMsg::UpdatePauser { pauser: to.clone() }), "engine."),
                 3 => (roles.fund_owner.clone(), it.w.fund.clone(), jv(&fund::ExecuteMsg::UpdateOwner { owner: to.clone() }), "fund."),
                 4 => (roles.pool_owner.clone(), it.w.fee_pool.clone(), jv(&fp::ExecuteMsg::UpdateOwner { owner: to.clone() }), "pool."),
-                _ => (roles.feed_owner[v].clone(), it.w.oracles[v].clone(), jv(&feed::ExecuteMsg::UpdateOwner { owner: to.clone() }), "feed."),
+                5 => (roles.feed_owner[v].clone(), it.w.oracles[v].clone(), jv(&feed::ExecuteMsg::UpdateOwner { owner: to.clone() }), "feed."),
+                6 => (roles.orphan_owner.clone(), orphan.clone(), jv(&vamm::ExecuteMsg::UpdateOwner { owner: to.clone() }), "orphan."),
+                k => (
+                    roles.orphan_owner.clone(),
+                    orphan.clone(),
+                    jv(&vamm::ExecuteMsg::UpdateConfig {
+                        base_asset_holding_cap: None,
+                        open_interest_notional_cap: None,
+                        toll_ratio: None,
+                        spread_ratio: None,
+                        fluctuation_limit_ratio: None,
+                        margin_engine: if k == 7 { Some(to.clone()) } else { None },
+                        insurance_fund: if k == 8 { Some(to.clone()) } else { None },
+                        pricefeed: None,
+                        spot_price_twap_interval: None,
+                    }),
+                    "orphan.",
+                ),
             };
             let r = it.w.exec_json(&holder, &target, &msg, None);
-            log.push(json!({"role": t.role % 6, "v": v, "from": holder, "to": to, "ok": r.ok}));
+            log.push(json!({"role": t.role % 9, "v": v, "from": holder, "to": to, "ok": r.ok}));
             if !r.ok {
                 let v = Violation::new("role_holder_refused", format!("role transfer {} by the tracked holder {} to {} failed: {}", prefix, holder, to, r.err)).with("msg", "transfer").at(i);
                 if let Some(v) = ctx.filter(&mut out, v) {
@@ -595,15 +646,18 @@ impl Property for C09 {
                 continue;
             }
             transfers_ok += 1;
-            match t.role % 6 {
+            match t.role % 9 {
                 0 => roles.vamm_owner[v] = to,
                 1 => roles.engine_owner = to,
                 2 => roles.pauser = to.clone(),
                 3 => roles.fund_owner = to,
                 4 => roles.pool_owner = to,
-                _ => roles.feed_owner[v] = to,
+                5 => roles.feed_owner[v] = to,
+                6 => roles.orphan_owner = to,
+                7 => roles.orphan_engine = Some(to),
+                _ => roles.orphan_fund = Some(to),
             }
-            if t.role % 6 == 2 {
+            if t.role % 9 == 2 {
                 it.w.pauser = roles.pauser.clone();
             }
             if let Some(v) = matrix(&mut it.w, &roles, Some(prefix), &mut out) {
